@@ -29,6 +29,21 @@ def _np(o):
 
 def main():
     runner, fin, fout = sys.argv[1:4]
+    cov = None
+    if os.environ.get("VERIF_COVERAGE"):          # audit mode only (tools/coverage_audit.py)
+        import coverage
+        cov = coverage.Coverage(data_file=os.path.join(os.environ["VERIF_COVERAGE"], "cov.%d" % os.getpid()),
+                                include=["*/pyunicorn/*"])
+        cov.start()
+    try:
+        _main(runner, fin, fout)
+    finally:
+        if cov is not None:
+            cov.stop()
+            cov.save()
+
+
+def _main(runner, fin, fout):
     modname, func = runner.rsplit(".", 1)
     warnings.simplefilter("ignore")
     import numpy
